@@ -9,7 +9,7 @@ NOTES = {
                     "trigger and the patch no longer applies; on the tree it was written for the strengthened check reports it (verified by hand)"),
 }
 rows = []
-for d in sorted(glob.glob(os.path.join(ROOT, "C*", "m*"))):
+for d in sorted(glob.glob(os.path.join(ROOT, "C*", "*m[0-9]"))):
     pid, k = d.split(os.sep)[-2:]
     def load(n):
         p = os.path.join(d, n)
